@@ -217,3 +217,68 @@ func caseMaskUnit(alpha string, maxLenQ, maxLenT int, check func(k *K, v []byte)
 		}
 	}
 }
+
+// "bigdst" units (C12–C14): the destination is a LARGE buffer that is reused —
+// capacity 2^18, 2^18+1, 300 000, 2^20 bytes — and the next result needs a
+// little or a lot more than it has (1.05x, 1.26x, 1.5x, 2.1x, 4x), or just
+// fits, with and without a prefix to keep. Growth policies change with size
+// ("large buffers grow by a quarter"); the spare-capacity sweeps elsewhere
+// stay with small buffers.
+type bigDstCall struct {
+	name  string
+	alpha string
+	per   func(outLen int) int // input length that yields outLen output bytes
+	run   func(dst, src []byte) []byte
+	ref   func(src []byte) []byte
+}
+
+func bigDstUnit(calls []bigDstCall) func(c *Ctx) {
+	return func(c *Ctx) {
+		caps := []int{1 << 18, 1<<18 + 1, 300000}
+		if c.Thorough {
+			caps = append(caps, 1<<20, 1<<22+3)
+		}
+		idx := int64(0)
+		for _, call := range calls {
+			for _, cp := range caps {
+				c.Case(idx, func(k *K) {
+					r := k.Rand()
+					k.Input("call", call.name)
+					k.Input("dst_capacity", cp)
+					for _, factor := range []float64{0.5, 1, 1.05, 1.26, 1.5, 2.1, 4} {
+						for _, plen := range []int{0, 5} {
+							out := int(float64(cp)*factor) - plen
+							src := randSeq(r, []byte(call.alpha), call.per(out))
+							want := call.ref(src)
+							dst := make([]byte, plen, cp)
+							copy(dst, "keep!")
+							if plen == 0 && r.IntN(2) == 0 { // a buffer that a previous call filled, cut back to length 0
+								dst = call.run(make([]byte, 0, cp), randSeq(r, []byte(call.alpha), call.per(cp)))[:0]
+							}
+							var got []byte
+							if pv := catch(func() { got = call.run(dst, src) }); pv != nil {
+								k.Failf("panic", "%s into a destination of capacity %d (length %d) for a result of %d bytes panicked: %v", call.name, cap(dst), plen, len(want), pv)
+								return
+							}
+							if len(got) != plen+len(want) || string(got[:plen]) != "keep!"[:plen] || !bytes.Equal(got[plen:], want) {
+								k.Failf("big-destination", "%s into a destination of capacity %d (length %d): the result has %d bytes, want %d + %d; first difference at %d", call.name, cp, plen, len(got), plen, len(want), firstDiff(got[min(plen, len(got)):], want))
+								return
+							}
+							k.Count("big_destination_calls", 1)
+							k.Evals(1)
+						}
+					}
+					k.Nontrivial([]byte(fmt.Sprint("bigdst", call.name, cp)))
+				})
+				idx++
+			}
+		}
+	}
+}
+
+var bigDstC12 = []bigDstCall{{"ReverseComplement", dna10, func(o int) int { return o }, func(d, s []byte) []byte { return sequtil.ReverseComplement(d, s) }, refRevComp}}
+var bigDstC13 = []bigDstCall{
+	{"DNATo2Bit", dna8, func(o int) int { return 4 * o }, func(d, s []byte) []byte { return sequtil.DNATo2Bit(d, s) }, refPack},
+	{"DNAFrom2Bit", "\x00\x1b\xe4\xff\x5a\xa5\x80\x7f", func(o int) int { return o / 4 }, func(d, s []byte) []byte { return sequtil.DNAFrom2Bit(d, s) }, refUnpack},
+}
+var bigDstC14 = []bigDstCall{{"Translate", dna8, func(o int) int { return 3 * o }, func(d, s []byte) []byte { return sequtil.Translate(d, s) }, refTranslate}}
